@@ -423,21 +423,23 @@ def f_env(value=None, how="declared", v=1, ovr="none"):
     return {"plan.py": script(root, v=v), "e.py": script(e)}
 
 
-def f_vol(outdir="out/deep", log="vol", workdir=".", present=1, adopt="none"):
+def f_vol(outdir="out/deep", log="vol", workdir=".", present=1, adopt="none", logdir="out"):
     """V: a step with a nested output directory, a volatile log and a working directory.
+    logdir: where the log goes; with out/logs the two outputs live in sibling directories whose
+    common parent out/ holds no output itself.
     adopt: once the step is dropped (present=0) the plan declares its former outputs static,
     as a tree (out/) or as a file (out/log.txt): the user keeps them as sources."""
     prog = [["static", "src.txt"]]
     if not present and adopt == "tree":
         prog.append(["static", "out/"])
     elif not present and adopt == "file":
-        prog.append(["static", "out/log.txt"])
+        prog.append(["static", f"{logdir}/log.txt"])
     if present:
         kw = {"inp": ["src.txt"], "out": [f"{outdir}/o.txt"]}
         if log == "vol":
-            kw["vol"] = ["out/log.txt"]
+            kw["vol"] = [f"{logdir}/log.txt"]
         elif log == "out":
-            kw["out"].append("out/log.txt")
+            kw["out"].append(f"{logdir}/log.txt")
         outs = kw["out"] + kw.get("vol", [])
         cmd = f"tr V src.txt -- {' '.join(outs)}"
         if workdir != ".":
@@ -539,7 +541,8 @@ DOMAINS = {
                 "order": ("amend_first", "read_first")},
     "f_env": {"how": ("declared", "amended"), "v": (1, 2), "ovr": ("none", "o", "p")},
     "f_vol": {"outdir": ("out/deep", "out2"), "log": ("vol", "out", "none"),
-              "workdir": (".", "wd", "wd/in"), "present": (1, 0), "adopt": ("none", "tree", "file")},
+              "workdir": (".", "wd", "wd/in"), "present": (1, 0), "adopt": ("none", "tree", "file"),
+              "logdir": ("out", "out/logs")},
     "f_redefine": {"inp": (("src.txt",), (), ("src.txt", "src2.txt")), "out": (("r.txt",), ("r.txt", "r2.txt"))},
     "f_optional": {"u": (1, 0), "o2_need": ("OPTIONAL", "DEFAULT"), "src": ("x", "y", "!fail")},
     "f_selfprod": {"sub": (1, 0)},
